@@ -372,6 +372,20 @@ func ruleAcceptLoops(c *Ctx, rid string) {
 							s.Have = 0
 						}
 					}
+					if mc, ok := x.Common().Value.(*ssa.MakeClosure); ok {
+						for _, a := range mc.Bindings { // the iteration's own variable holding the socket
+							if isSock(a) {
+								s.Have = 0
+							}
+							if cell, ok := a.(*ssa.Alloc); ok && al.Loop.Blocks[cell.Block()] {
+								for _, r := range *cell.Referrers() {
+									if st, ok := r.(*ssa.Store); ok && st.Addr == ssa.Value(cell) && isSock(st.Val) {
+										s.Have = 0
+									}
+								}
+							}
+						}
+					}
 				case *ssa.Return:
 					if s.Have == 1 {
 						fail("the function returns while holding an accepted socket that was neither handed to a goroutine nor closed")
@@ -803,6 +817,7 @@ func runC07(c *Ctx) {
 	rulePanicBarrier(c, "R07.a")
 	ruleNoExit(c, "R07.b")
 	ruleAcceptLoops(c, "R07.c")
+	ruleGoroutineOwnsItsIteration(c, "R07.c")
 	ruleReplyBufferLocal(c, "R07.d")
 	ruleNilNilDeref(c, "R07.e")
 	ruleNoReentrantLock(c, buildSyncModel(c), "R07.f")
@@ -813,7 +828,9 @@ func runC07(c *Ctx) {
 
 func runC19(c *Ctx) {
 	ruleCloseOnEveryExit(c, "R19.a")
+	ruleGoroutineOwnsItsIteration(c, "R19.a")
 	ruleRegistryBracket(c, "R19.b")
+	ruleConnKeyUnique(c, "R19.b")
 	ruleAcceptLoops(c, "R19.c")
 	ruleLoopExitIsFunctionExit(c, "R19.d")
 	ruleStopSweep(c, "R19.e")
@@ -1227,5 +1244,116 @@ func ruleClientSizedAllocations(c *Ctx, rid string) {
 	c.count("parameter-sized-allocations", n)
 	if bad == 0 {
 		c.ok(rid, "no-unbounded-client-sized-allocation", "", fmt.Sprintf("%d allocations sized by parameters, all bounded", n))
+	}
+}
+
+// ruleConnKeyUnique: the registry is a map keyed by the connection's id. Two live connections
+// with the same id share one slot: the second replaces the first, either one ending
+// unregisters the survivor, and Stop leaves the orphan open. The id must therefore be unique
+// by construction: a fresh random UUID, not something derived from the peer's address.
+func ruleConnKeyUnique(c *Ctx, rid string) {
+	c.rule(rid, "the id under which a connection is registered is assigned once, in the Conn constructor, from uuid.New()/uuid.NewRandom() (unique by construction), and AddConn/RemoveConn key the registry by that id")
+	ctor := c.P.connConstructor()
+	if !c.anchor(rid, ctor, "the *redis.Conn constructor") {
+		return
+	}
+	var src ssa.Value
+	allInstrs(ctor, func(ins ssa.Instruction) {
+		st, ok := ins.(*ssa.Store)
+		if !ok {
+			return
+		}
+		if owner, f, _, ok := fieldOf(st.Addr); ok && owner == "redis.Conn" && strings.Contains(strings.ToLower(f), "uuid") {
+			src = st.Val
+		}
+	})
+	okU := false
+	why := "the connection id is not assigned in the constructor"
+	if src != nil {
+		why = "the connection id is " + describeValue(strip(src)) + ", not a fresh random UUID: two live connections can get the same id and share one registry slot"
+		if call, ok := strip(src).(*ssa.Call); ok {
+			n := calleeName(call.Common())
+			if n == "github.com/google/uuid.New" || n == "github.com/google/uuid.NewRandom" || n == "github.com/google/uuid.Must" {
+				okU = true
+			}
+		}
+		if ex, ok := strip(src).(*ssa.Extract); ok {
+			if call, ok := ex.Tuple.(*ssa.Call); ok && calleeName(call.Common()) == "github.com/google/uuid.NewRandom" {
+				okU = true
+			}
+		}
+	}
+	c.check(okU, rid, "Conn/id", c.P.pos(ctor.Pos()), "id = fresh random UUID", why)
+	// no other store to the id
+	n := 0
+	for _, fn := range c.P.RepoFuncs(pkgRedis) {
+		if fn == ctor {
+			continue
+		}
+		allInstrs(fn, func(ins ssa.Instruction) {
+			if st, ok := ins.(*ssa.Store); ok {
+				if owner, f, _, ok := fieldOf(st.Addr); ok && owner == "redis.Conn" && strings.Contains(strings.ToLower(f), "uuid") {
+					n++
+					c.bad(rid, fmt.Sprintf("%s/id-store", fnName(fn)), c.P.instrPos(st), "the connection id is changed after construction: the registry entry can no longer be found under it")
+				}
+			}
+		})
+	}
+}
+
+// ruleGoroutineOwnsItsIteration: a goroutine started inside a loop must receive what the
+// iteration produced by value. A closure that captures a variable declared outside the loop
+// and assigned inside it shares one cell with every other goroutine the loop starts: the next
+// Accept overwrites the socket before (or while) the previous goroutine reads it, so a request
+// is served — and its connection state kept — on somebody else's connection.
+func ruleGoroutineOwnsItsIteration(c *Ctx, rid string) {
+	c.rule(rid, "every go statement inside a loop of the production packages hands the goroutine per-iteration values: no closure binding (and no argument) is the address of a variable allocated outside the loop and stored to inside it")
+	n, bad := 0, 0
+	for _, fn := range c.P.RepoFuncs(modPath) {
+		if !inProd(fn) || fn.Blocks == nil {
+			continue
+		}
+		loops := naturalLoops(fn)
+		if len(loops) == 0 {
+			continue
+		}
+		allInstrs(fn, func(ins ssa.Instruction) {
+			g, ok := ins.(*ssa.Go)
+			if !ok {
+				return
+			}
+			for _, l := range loops {
+				if !l.Blocks[g.Block()] {
+					continue
+				}
+				n++
+				c.analysed(fn)
+				var cells []ssa.Value
+				if mc, ok := g.Common().Value.(*ssa.MakeClosure); ok {
+					cells = append(cells, mc.Bindings...)
+				}
+				cells = append(cells, g.Common().Args...)
+				for _, cell := range cells {
+					al, ok := cell.(*ssa.Alloc)
+					if !ok || l.Blocks[al.Block()] {
+						continue
+					}
+					storedInLoop := false
+					for _, r := range *al.Referrers() {
+						if st, ok := r.(*ssa.Store); ok && st.Addr == ssa.Value(al) && l.Blocks[st.Block()] {
+							storedInLoop = true
+						}
+					}
+					if storedInLoop {
+						bad++
+						c.bad(rid, fmt.Sprintf("%s/go-shares-loop-variable:%s", fnName(fn), al.Comment), c.P.instrPos(g), fmt.Sprintf("the goroutine captures variable %q by reference; it is declared outside the loop and reassigned by every iteration, so concurrent goroutines read each other's value", al.Comment))
+					}
+				}
+			}
+		})
+	}
+	c.count("go-in-loop-sites", n)
+	if bad == 0 {
+		c.ok(rid, "go-sites-per-iteration", "", fmt.Sprintf("%d go statements inside loops; all receive per-iteration values", n))
 	}
 }
